@@ -150,6 +150,15 @@ fn expand_single_relspec(value: &str, ctx: &impl ElementMap) -> String {
     value.to_string()
 }
 
+/// True for values which cannot be converted to f32 *and* do not contain '$'/'#'/'^'
+/// (which might be resolved later), such as "10%" or "40mm".
+fn is_passthrough_length(value: &str) -> bool {
+    strp(value).is_err()
+        && !(value.contains(VAR_PREFIX)
+            || value.contains(ELREF_ID_PREFIX)
+            || value.contains(ELREF_PREVIOUS))
+}
+
 impl SvgElement {
     pub fn new(name: &str, attrs: &[(String, String)]) -> Self {
         let mut attr_map = AttrMap::new();
@@ -736,13 +745,22 @@ impl SvgElement {
 
         // The width/height cases cover rect-like elements, but they are also used
         // as intermediate (e.g. `wh` expansion) size attributes for other elements.
+        // A length with a unit or a percentage ("1cm", "100%") is passed through as
+        // plain SVG; there is then no size in user units to offer.
+        fn user_units(value: &str) -> Result<Option<f32>> {
+            match strp(value) {
+                Ok(v) => Ok(Some(v)),
+                Err(_) if is_passthrough_length(value) => Ok(None),
+                Err(e) => Err(e),
+            }
+        }
         let mut width = None;
         let mut height = None;
         if let Some(w) = self.attrs.get("width") {
-            width = Some(strp(w)?);
+            width = user_units(w)?;
         }
         if let Some(h) = self.attrs.get("height") {
-            height = Some(strp(h)?);
+            height = user_units(h)?;
         }
         match self.name.as_str() {
             "use" | "reuse" => {
@@ -769,14 +787,14 @@ impl SvgElement {
                 height = Some(0.);
             }
             "circle" => {
-                if let Some(r) = self.attrs.get("r").map(|n| strp(n)).transpose()? {
+                if let Some(r) = self.attrs.get("r").map(|n| user_units(n)).transpose()?.flatten() {
                     width = Some(r * 2.0);
                     height = Some(r * 2.0);
                 }
             }
             "ellipse" => {
-                let rx = self.attrs.get("rx").map(|n| strp(n)).transpose()?;
-                let ry = self.attrs.get("ry").map(|n| strp(n)).transpose()?;
+                let rx = self.attrs.get("rx").map(|n| user_units(n)).transpose()?.flatten();
+                let ry = self.attrs.get("ry").map(|n| user_units(n)).transpose()?.flatten();
                 if let Some(rx) = rx {
                     width = Some(rx * 2.0);
                 }
@@ -785,13 +803,13 @@ impl SvgElement {
                 }
             }
             "line" => {
-                let x1 = self.attrs.get("x1").map(|n| strp(n)).transpose()?;
-                let x2 = self.attrs.get("x2").map(|n| strp(n)).transpose()?;
+                let x1 = self.attrs.get("x1").map(|n| user_units(n)).transpose()?.flatten();
+                let x2 = self.attrs.get("x2").map(|n| user_units(n)).transpose()?.flatten();
                 if let (Some(x1), Some(x2)) = (x1, x2) {
                     width = Some((x2 - x1).abs());
                 }
-                let y1 = self.attrs.get("y1").map(|n| strp(n)).transpose()?;
-                let y2 = self.attrs.get("y2").map(|n| strp(n)).transpose()?;
+                let y1 = self.attrs.get("y1").map(|n| user_units(n)).transpose()?.flatten();
+                let y2 = self.attrs.get("y2").map(|n| user_units(n)).transpose()?.flatten();
                 if let (Some(y1), Some(y2)) = (y1, y2) {
                     height = Some((y2 - y1).abs());
                 }
@@ -840,13 +858,7 @@ impl SvgElement {
         // this is needed to ultimately pass through e.g. "10cm" or "5%" as-is without
         // attempting to compute a bounding box.
         fn passthrough(value: &str) -> bool {
-            // if attrs cannot be converted to f32 *and* do not contain '$'/'#'/'^' (which
-            // might be resolved later) then return Ok(None).
-            // This will return `true` for things such as "10%" or "40mm".
-            strp(value).is_err()
-                && !(value.contains(VAR_PREFIX)
-                    || value.contains(ELREF_ID_PREFIX)
-                    || value.contains(ELREF_PREVIOUS))
+            is_passthrough_length(value)
         }
         Ok(match self.name.as_str() {
             "point" | "text" => {
